@@ -35,6 +35,7 @@ type Obligation struct {
 	Expect  string // "unsat" normally; "sat" for cover checks
 	Clause  string // source text of the clause
 	Hints   map[string]string
+	Twin    string // cover-goal: name of the ensures obligation it mirrors
 }
 
 type loopInfo struct {
@@ -47,6 +48,8 @@ type loopInfo struct {
 	touch    map[string]bool
 	globals  map[*ssa.Global]bool
 	inferred *inferredLoop
+	lc       *LoopContract // written clauses that apply to this loop (nil: guessed)
+	simple   bool          // no calls, no map updates: a wipe / copy / compare loop
 }
 
 func (li *loopInfo) label() string {
@@ -272,6 +275,14 @@ func (ex *Exec) oblige(st *State, kind, label string, goal Term, tags []string, 
 		return o
 	}
 	o.Script = ex.script(st, Not(goal))
+	if ex.p.returnCovers && kind == "ensures" && !ex.isInit {
+		// thorough tier: the mirror query "path and clause" must not be refutable unless the path
+		// itself is dead; a clause and its negation both "proved" on a live path means the
+		// assumptions are contradictory in a way the plain cover did not expose
+		tw := &Obligation{Name: name + "/twin", Fn: ex.name, Kind: "cover-goal", Expect: "sat", Goal: "clause satisfiable on this path", Pos: o.Pos, Twin: name}
+		tw.Script = ex.script(st, goal)
+		defer func() { ex.obls = append(ex.obls, tw) }()
+	}
 	o.Watch = append([]watch(nil), ex.watches...)
 	ex.obls = append(ex.obls, o)
 	return o
@@ -712,7 +723,7 @@ func (ex *Exec) run() {
 		for n := range ex.fc.Loops {
 			found := false
 			for _, li := range ex.loops {
-				if li.ordinal == n && li.fn == ex.fn {
+				if (li.ordinal == n && li.fn == ex.fn) || (li.lc != nil && li.lc == ex.fc.Loops[n]) {
 					found = true
 				}
 			}
@@ -833,9 +844,66 @@ func (ex *Exec) addLoops(fn *ssa.Function) {
 		}
 		return false
 	})
+	// which written loop clauses apply to which loop: by position when the counts agree;
+	// when the function has gained loops, the loops that call nothing (wipe, copy, compare
+	// loops) are set aside and the written clauses go to the others in order
+	for _, h := range headers {
+		li := ex.loops[h]
+		li.simple = true
+		for b := range li.blocks {
+			for _, in := range b.Instrs {
+				switch c := in.(type) {
+				case *ssa.Call:
+					if _, isB := c.Call.Value.(*ssa.Builtin); !isB {
+						li.simple = false
+					}
+				case *ssa.MapUpdate, *ssa.Defer, *ssa.Go:
+					li.simple = false
+				}
+			}
+		}
+	}
+	ordinals := make([]int, len(headers))
+	for i := range headers {
+		ordinals[i] = i + 1
+	}
+	if fn == ex.fn && ex.fc != nil && len(ex.fc.Loops) > 0 && len(headers) > len(ex.fc.Loops) {
+		var ks []int
+		for k := range ex.fc.Loops {
+			ks = append(ks, k)
+		}
+		sort.Ints(ks)
+		var busy []int
+		for i, h := range headers {
+			if !ex.loops[h].simple {
+				busy = append(busy, i)
+			}
+		}
+		if len(busy) == len(ks) {
+			next := len(ks) + 1
+			for i := range ordinals {
+				ordinals[i] = 0
+			}
+			for j, i := range busy {
+				ordinals[i] = ks[j]
+			}
+			for i := range ordinals {
+				if ordinals[i] == 0 {
+					for ex.fc.Loops[next] != nil {
+						next++
+					}
+					ordinals[i] = next
+					next++
+				}
+			}
+		}
+	}
 	for i, h := range headers {
 		li := ex.loops[h]
-		li.ordinal = i + 1
+		li.ordinal = ordinals[i]
+		if fn == ex.fn && ex.fc != nil {
+			li.lc = ex.fc.Loops[li.ordinal]
+		}
 		seen := map[*ssa.Alloc]bool{}
 		seenFV := map[*ssa.FreeVar]bool{}
 		calls := false
@@ -893,10 +961,40 @@ func blockPos(b *ssa.BasicBlock) token.Pos {
 }
 
 func (ex *Exec) loopContract(li *loopInfo) *LoopContract {
-	if ex.fc == nil || li.fn != ex.fn {
+	if li.lc != nil {
+		return li.lc
+	}
+	if ex.fc == nil || li.fn == ex.fn {
 		return nil
 	}
-	return ex.fc.Loops[li.ordinal]
+	// a loop of a helper executed inline: if the function under contract has exactly one
+	// written loop contract that none of its own loops took, and the helper has exactly one
+	// loop, the loop was moved into the helper and the clauses move with it (they are proved
+	// there like anywhere else)
+	var free []*LoopContract
+	for k, lc := range ex.fc.Loops {
+		taken := false
+		for _, l2 := range ex.loops {
+			if l2.lc == lc || (l2.fn == ex.fn && l2.ordinal == k) {
+				taken = true
+			}
+		}
+		if !taken {
+			free = append(free, lc)
+		}
+	}
+	n := 0
+	for _, l2 := range ex.loops {
+		if l2.fn == li.fn {
+			n++
+		}
+	}
+	if len(free) == 1 && n == 1 {
+		li.lc = free[0]
+		li.ordinal = free[0].Ordinal
+		return li.lc
+	}
+	return nil
 }
 
 // runBlock executes from instruction index i of block b.
@@ -1012,6 +1110,9 @@ func (ex *Exec) goTo(st *State, from, to *ssa.BasicBlock) {
 	for h, li := range ex.loops {
 		if li.blocks[from] && !li.blocks[to] {
 			_ = h
+			if li.fn != ex.fn && li.lc == nil {
+				break // a helper's own loop is not an anchor of the caller's contract
+			}
 			for _, s := range ex.applySplits(st, fmt.Sprintf("loop %d exit", li.ordinal), nil) {
 				ex.runBlock(s, to, 0)
 			}
@@ -1027,7 +1128,7 @@ func (ex *Exec) atLoopHeader(st *State, li *loopInfo) bool {
 	defer func() { ex.curLoop = nil }()
 	lc := ex.loopContract(li)
 	label := li.label()
-	if li.fn != ex.fn {
+	if li.fn != ex.fn && li.lc == nil {
 		label = shortName(ex.p.contractName(li.fn)) + "/" + label
 	}
 	first := st.loops[li.header] == nil || !li.blocks[st.pred]
@@ -1040,11 +1141,6 @@ func (ex *Exec) atLoopHeader(st *State, li *loopInfo) bool {
 	// loop's shape (infer.go) and proved like written ones
 	var inf *inferredLoop
 	if lc == nil {
-		if li.fn == ex.fn && ex.fc != nil && len(ex.fc.Loops) > 0 {
-			ex.failObl("loop", label+"/no-invariant", "loop without invariant", ex.fnTags(), hdrInstr)
-			st.dead = true
-			return false
-		}
 		inf = ex.inferLoop(li)
 		lc = &LoopContract{Ordinal: li.ordinal}
 	}
